@@ -130,7 +130,7 @@ PROPS = {
                  + PACK_MODEL + PARSE_MODEL + LOOP_PARSE_MODEL,
         refine=PACK_LEAVES + PARSE_LEAVES + TABLE_LEAVES,
         cases=[('msg', 300, 5000, []), ('leaf', 20, 200, [])],
-        oracle='c01',
+        oracle='c01', gen=(8, 60),
     ),
     'C03': dict(
         title='packed bytes are valid protobuf with the same meaning (encoder interop)',
